@@ -801,13 +801,14 @@ class CompositeCanvas(Canvas):
         if self.widget_info:
             raise self._finalized_error
         orig_shards = self.shards
+        # the width has to be read before trimming: it is lost when no rows are kept
+        cols = self.cols()
 
         if top < 0 or bottom < 0:
             trim_top = max(0, -top)
             rows = self.rows() - trim_top - max(0, -bottom)
             self.trim(trim_top, rows)
 
-        cols = self.cols()
         if top > 0:
             self.shards = [(top, [(0, 0, cols, top, None, blank_canvas)]), *self.shards]
             self.coords = self.translate_coords(0, top)
